@@ -1,0 +1,32 @@
+//go:build verif
+
+// Contracts for package sm3, read by the verification framework in /verif.
+// Comments only; compiled only under the build tag "verif".
+
+package sm3
+
+// ---- abstract view for callers (integer mode) ----
+// hs(h) names the byte stream absorbed by hash value h since its last Reset:
+// hs_empty() is the empty stream, hs_app(s, data, n) appends the n bytes of data;
+// digestbyte(s, i) is byte i of the SM3 digest of stream s.
+//@ ghostfield hs Int
+//@ uf hs_empty Int
+//@ uf hs_app Int
+//@ uf digestbyte Int 0 255
+
+//@ assume func (*sm3.SM3).Reset#int
+//@ assigns *sm3, hs(sm3)
+//@ ensures empty: hs(sm3) == hs_empty()
+
+//@ assume func (*sm3.SM3).Write#int
+//@ assigns *sm3, hs(sm3)
+//@ ensures app: hs(sm3) == hs_app(old(hs(sm3)), data, len(data))
+//@ ensures n: n == len(data) && !nonnil(err)
+
+//@ assume func (*sm3.SM3).Sum#int
+//@ case room: cap(in) - len(in) >= 32
+//@ ensures len: len(result) == len(in) + 32
+//@ ensures prefix: forall(i, 0, len(in), result[i] == old(in[i]))
+//@ ensures digest: forall(i, 0, 32, result[len(in) + i] == digestbyte(hs(sm3), i))
+//@ returns_if cap(in) - len(in) >= 32 : in[0:len(in)+32]
+//@ assigns in[len(in):cap(in)]
